@@ -1,16 +1,65 @@
 //! The final CredSSP round as the server / attacker may play it (catalogue of C01).
-use crate::nlapeer::{le_increment, subject_public_key, SecCtx};
+//! `final` in the plan: {"kind": ..., parameters}.  Returns the bytes of the whole last TSRequest.
+use crate::nlapeer::{der, der_int, le_increment, subject_public_key, ts_request, SecCtx};
+use crate::tlspeer::{identity, pem_to_der};
 use serde_json::Value;
 
-pub fn is_honest(srv: &Value) -> bool {
-    srv.get("final").and_then(|f| f.get("kind")).and_then(|k| k.as_str()).map(|k| k == "honest").unwrap_or(true)
+pub fn kind_of(srv: &Value) -> String {
+    srv.get("final").and_then(|f| f.get("kind")).and_then(|k| k.as_str()).unwrap_or("honest").to_string()
 }
 
-/// pubKeyAuth of the server's last TSRequest (None = field absent)
-pub fn final_reply(srv: &Value, client_pub: &[u8], _cert: &[u8], _key: &[u8], s2c: &mut SecCtx, _client_token: &[u8]) -> Option<Vec<u8>> {
-    let _ = subject_public_key;
-    let kind = srv.get("final").and_then(|f| f.get("kind")).and_then(|k| k.as_str()).unwrap_or("honest");
-    match kind {
-        _ => Some(s2c.wrap(&le_increment(client_pub, 1))),
+pub fn is_honest(srv: &Value) -> bool { kind_of(srv) == "honest" }
+
+fn gi(srv: &Value, k: &str, d: i64) -> i64 { srv.get("final").and_then(|f| f.get(k)).and_then(|x| x.as_i64()).unwrap_or(d) }
+
+/// the server's last TSRequest, whole
+pub fn final_request(srv: &Value, version: u32, client_pub: &[u8], key: &[u8], s2c: &mut SecCtx, client_token: &[u8]) -> Vec<u8> {
+    let honest_plain = le_increment(client_pub, 1);
+    let kind = kind_of(srv);
+    let wrap_req = |tok: &[u8]| ts_request(version, None, None, Some(tok));
+    match kind.as_str() {
+        "honest" => { let t = s2c.wrap(&honest_plain); wrap_req(&t) }
+        // key + k for k != 1 (correctly sealed)
+        "offset" => { let t = s2c.wrap(&le_increment(client_pub, gi(srv, "k", 0))); wrap_req(&t) }
+        // numerically honest, one more high-order zero byte
+        "padded" => { let mut p = honest_plain.clone(); p.push(0); let t = s2c.wrap(&p); wrap_req(&t) }
+        // the key of another certificate + 1 (relay / man in the middle terminating TLS with its own certificate)
+        "other_cert" => {
+            let (pem, _) = identity(srv.get("final").and_then(|f| f.get("other")).and_then(|x| x.as_str()).unwrap_or("leaf2"));
+            let other = subject_public_key(&pem_to_der(&pem)).unwrap_or_default();
+            let t = s2c.wrap(&le_increment(&other, 1)); wrap_req(&t)
+        }
+        // sealed under a session key the server cannot know
+        "wrong_key" => { let mut k2 = key.to_vec(); k2[0] ^= 0x01; let mut c = SecCtx::new(&k2, false); let t = c.wrap(&honest_plain); wrap_req(&t) }
+        // sealed with the client-to-server keys (server uses the wrong direction)
+        "wrong_direction" => { let mut c = SecCtx::new(key, true); let t = c.wrap(&honest_plain); wrap_req(&t) }
+        "bad_checksum" => { let mut t = s2c.wrap(&honest_plain); t[4 + (gi(srv, "i", 0) as usize % 8)] ^= 0x80; wrap_req(&t) }
+        "bad_seq" => { let mut t = s2c.wrap(&honest_plain); t[12] ^= 1; wrap_req(&t) }
+        "bad_sig_version" => { let mut t = s2c.wrap(&honest_plain); t[0] = 2; wrap_req(&t) }
+        "truncated" => { let t = s2c.wrap(&honest_plain); let n = (gi(srv, "n", 0) as usize).min(t.len()); wrap_req(&t[..n]) }
+        "extended" => { let mut t = s2c.wrap(&honest_plain); t.extend(vec![0u8; gi(srv, "n", 1) as usize]); wrap_req(&t) }
+        // the client's own sealed token echoed back
+        "reflect" => wrap_req(client_token),
+        // the public key itself, unsealed / the incremented key unsealed
+        "plain_key" => wrap_req(client_pub),
+        "plain_inc" => wrap_req(&honest_plain),
+        "empty" => wrap_req(&[]),
+        "absent" => ts_request(version, None, None, None),
+        // pubKeyAuth delivered in the authInfo field
+        "wrong_field" => { let t = s2c.wrap(&honest_plain); ts_request(version, None, Some(&t), None) }
+        // single-bit corruption of the honest TSRequest
+        "bitflip" => { let t = s2c.wrap(&honest_plain); let mut r = wrap_req(&t); let i = gi(srv, "i", 0) as usize % (r.len() * 8); r[i / 8] ^= 1 << (i % 8); r }
+        // whole request cut short / followed by garbage
+        "cut" => { let t = s2c.wrap(&honest_plain); let r = wrap_req(&t); let n = (gi(srv, "n", 0) as usize).min(r.len()); r[..n].to_vec() }
+        // definite long-form (non minimal) length on the outer SEQUENCE
+        "ber_long" => {
+            let t = s2c.wrap(&honest_plain);
+            let mut c = der(0xa0, &der_int(version));
+            c.extend(der(0xa3, &der(4, &t)));
+            let mut v = vec![0x30, 0x83, 0, (c.len() >> 8) as u8, c.len() as u8];
+            v.extend(c);
+            v
+        }
+        _ => { let t = s2c.wrap(&honest_plain); wrap_req(&t) }
     }
 }
